@@ -99,6 +99,7 @@ type recovered struct {
 	stopped  []string
 	trace    []simrt.Event // recovery trace (events relative to the image dir)
 	openedAt int           // seq of the "opened" mark in trace
+	leaks    []string      // descriptors / mappings still open after Close
 }
 
 func recoverImage(c *Ctx, m *fsmodel.FS, opts dbOpts, keys []string, tape *simrt.Tape, permute bool) *recovered {
@@ -145,6 +146,7 @@ func recoverDir(dir string, opts dbOpts, keys []string, tape *simrt.Tape, permut
 		}
 	}
 	rec.closeErr = db.Close()
+	rec.leaks = append(w.OpenHandles(), w.OpenMappings()...)
 	rec.stopped = w.StoppedMessages()
 	rec.trace = w.Trace()
 	return rec
@@ -540,6 +542,12 @@ func runCrashCase(c *Ctx, dc dbCase, tape *simrt.Tape, plan crashPlan) crashOutc
 			add("close-after-recovery|"+normErr(rec.closeErr)+"|"+tagStr, fmt.Sprintf("Close after recovery fails (%s): %v", where, rec.closeErr))
 			continue
 		}
+		if plan.mode == "leaks" {
+			if len(rec.leaks) > 0 {
+				add("leak-after-recovery-close|"+leakKinds(rec.leaks), fmt.Sprintf("after recovering the crash image and calling Close, still open: %v (%s)", rec.leaks, where))
+			}
+			continue
+		}
 		// nested crashes inside recovery (C10)
 		if plan.mode == "nested" && !cached && nestedBudget > 0 {
 			interesting := len(tags) > 0 || m.Size("wal/000000.wal") > 8 || rs.Intn(4) == 0
@@ -703,4 +711,20 @@ func crashsimReplay(c *Ctx, rf *ReplayFile) []Violation {
 		out = append(out, Violation{Property: rf.Property, Sig: v.sig, Detail: v.detail})
 	}
 	return out
+}
+
+func leakKinds(paths []string) string {
+	var kinds []string
+	for _, p := range paths {
+		switch {
+		case strings.HasPrefix(p, "wal/"):
+			kinds = append(kinds, "wal-file")
+		case strings.Contains(p, "sstable"):
+			kinds = append(kinds, "table-file:"+p[strings.LastIndex(p, "/")+1:])
+		default:
+			kinds = append(kinds, "other")
+		}
+	}
+	sort.Strings(kinds)
+	return strings.Join(uniq(kinds), ",")
 }
